@@ -14,6 +14,17 @@ def build(U):
     U.add(broker_common.types(U))
     U.prelude('epoch_spec.rs')
     U.add('''
+// C06: a proxy that is marked failed or under failure report
+pub open spec fn reported(failed: Set<String>, reports: Set<String>, a: [String; CHUNK_PARTS]) -> bool { exists|j: int| 0 <= j < 2 && (failed.contains(#[trigger] a[j]) || reports.contains(a[j])) }
+pub open spec fn same_but_role(a: ChunkStore, b: ChunkStore) -> bool { b == (ChunkStore { role_position: b.role_position, ..a }) }
+// balance_masters: nothing but role positions changes, and a chunk is reset to Normal iff it is allowed to (only_if: all clusters; iff: the balanced one)
+pub open spec fn balanced_chunks(failed: Set<String>, reports: Set<String>, oc: Seq<ChunkStore>, nc: Seq<ChunkStore>) -> bool {
+    nc.len() == oc.len() && forall|i: int| 0 <= i < oc.len() ==> same_but_role(oc[i], #[trigger] nc[i])
+        && (if reported(failed, reports, oc[i].proxy_addresses) { nc[i].role_position == oc[i].role_position } else { nc[i].role_position == ChunkRolePosition::Normal })
+}
+pub open spec fn untouched_or_balanced(failed: Set<String>, reports: Set<String>, o: ClusterStore, n: ClusterStore) -> bool {
+    n.name == o.name && n.config == o.config && (n.chunks@ == o.chunks@ || balanced_chunks(failed, reports, o.chunks@, n.chunks@))
+}
 pub struct InvalidClusterName;
 impl<'b> core::convert::TryFrom<&'b str> for ClusterName {
     type Error = InvalidClusterName;
@@ -68,9 +79,11 @@ impl ClusterStore {
     f = X.fn('balance_masters')
     f.r1_logging().r2_closure_underscore()
     vlib.d8_continue(f)
-    f.header("    pub fn balance_masters(&mut self, cluster_name: String) -> (r: Result<(), MetaStoreError>)\n" + REQ)
-    # loop #0 is inside the closure failed_proxy_exists; loop #1 walks the chunks
-    f.loop_spec(1, "                    invariant forall|a: &[String; CHUNK_PARTS]| failed_proxy_exists.requires((a,)),", itname=None)
+    # closure-spec: the closure that decides whether a chunk may get its masters back is given its statement-level meaning
+    f.replace('closure-spec', 'let failed_proxy_exists = |addresses: &[String; CHUNK_PARTS]| -> bool {',
+              'let failed_proxy_exists = |addresses: &[String; CHUNK_PARTS]| -> (b: bool)\n            requires vstd::std_specs::hash::obeys_key_model::<String>()\n'
+              '            ensures b == reported(failed_proxies@, failures@.dom(), *addresses)\n        {', count=1)
+    f.apply_overlay('balance_masters')
     U.add_fn(f)
     U.add("}\n} // verus!\nfn main() {}\n")
     U.trust('ClusterConfig::set_field, ClusterStore::is_migrating, ClusterName::try_from by havoc contracts (out of reach)')
